@@ -415,7 +415,9 @@ Proof.
   - intros p Hp. destruct (accepted_is_valid _ _ _ _ _ _ _ _ Hp) as [_ [_ Hm]].
     unfold orbit_from_particle_err. cbn [nleb RNum]. unfold Rleb.
     destruct (Rle_dec (pm prim) tiny); [lra|]. cbv zeta.
-    match goal with |- (if ?c then _ else _) <> _ => destruct c; discriminate end.
+    intro K. match type of K with (if ?c then _ else _) = _ => destruct c; [discriminate K|] end.
+    match type of K with context [match ?X with pair _ _ => _ end] => destruct X as [[[om pom] ff] th] end.
+    discriminate K.
 Qed.
 Print Assumptions C11_tiny_primary_boundary.
 
